@@ -100,6 +100,8 @@ class Check:
             "trusted_base": self.trusted,
             "exhaustive": self.exhaustive,
             "failed_obligations": [o for o in self.obligations if not o["ok"]][:50],
+            "obligations_per_rule": _per_rule(self.obligations),
+            "obligation_samples": _spread(self.obligations, 40),
         }
         ev = {
             "property_id": self.pid,
@@ -119,6 +121,29 @@ class Check:
         for l in out_lines:
             print(l)
         return 1 if unknown else 0
+
+
+def _per_rule(obs):
+    d = {}
+    for o in obs:
+        d[o["rule"]] = d.get(o["rule"], 0) + 1
+    return d
+
+
+def _spread(obs, n):
+    """up to n obligations spread over all rules (what they look like)"""
+    by = {}
+    for o in obs:
+        by.setdefault(o["rule"], []).append(o)
+    res = []
+    i = 0
+    while len(res) < n and any(by.values()):
+        for r in list(by):
+            if by[r] and len(res) < n:
+                o = by[r].pop(0)
+                res.append("%s: %s" % (o["rule"], o["desc"][:300]))
+        i += 1
+    return res
 
 
 def _slug(s):
